@@ -40,7 +40,7 @@ ASSUMPTIONS = [
     "struct.pack raises for out-of-range lengths; len(), tell() and the UKVRecord constructor do not fail",
     "the OS does not alter bytes below the offset a process writes at",
 ]
-FLOORS = {"C02.R10": 3, "C02.R11": 3, "C02.R9": 1, "C02.R7": 1, "C02.R1": 2, "C02.R2": 1, "C02.R3": 5, "C02.R4": 6, "C02.R5": 1, "C02.R6": 4}
+FLOORS = {"C02.R12": 1, "C02.R10": 3, "C02.R11": 3, "C02.R9": 1, "C02.R7": 1, "C02.R1": 2, "C02.R2": 1, "C02.R3": 5, "C02.R4": 6, "C02.R5": 1, "C02.R6": 4}
 
 STATE = {"self._toc[]", "self._eof", "self._last"}
 STREAM_WRITES = {"self._stream.write", "self._stream.truncate", "self._pack_write", "self._stream.writelines"}
@@ -74,6 +74,7 @@ def run(chk):
 
     chk.borrow("C02.R8", c04.r3_index_refresh, chk)
     chk.call(r10_empty_value_is_a_value, chk)
+    chk.call(r12_default_buffer_writes_through, chk)
     # "the key listing is exactly the set of successfully put keys ... for 1..3 handles whose cached table of contents may be stale":
     # every session refreshes the listing before its body runs (the ordering clause of C04.R3) and the refresh replaces the listing
     # whatever it held before (C04.R8)
@@ -847,3 +848,42 @@ def r10_empty_value_is_a_value(chk):
                      "but get() treats it as missing (or replaces it) - get(k) is not the bytes of the successful put(k)")
         else:
             chk.ok("C02.R10", key, f.where(), f"no test of the bytes read ({len(vals)} local(s) holding them)")
+
+
+# ----------------------------------------------------------------------------
+def r12_default_buffer_writes_through(chk):
+    """"an operation that fails (duplicate key ...) leaves ... every handle's view unchanged", for "buffer sizes {default(-1), ...}":
+    with the default buffer size a put reaches the file - and fails there - before put() returns.  That is what `bufsize = -1` means
+    in CollectionBackendBase: `_bufsize = int(bufsize)` is negative and `used_memory > _bufsize` holds after every put.  The value the
+    constructor computes for the default of Collection / the libraries is evaluated (sa/truth.py) and the flush test tabulated for
+    0, 1 and 100000 bytes in the queue.  (A negative size mapped onto the large default buffer accepts a duplicate put silently; it
+    fails later inside flush, and the puts queued behind it are lost.)"""
+    from ..truth import Unknown, evaluate
+
+    prog = chk.prog
+    base = prog.cls(f"{BK}:CollectionBackendBase")
+    init = prog.method(base, "__init__")
+    put = prog.method(base, "put")
+    chk.analysed(init, put)
+    coll = prog.method(prog.cls("molli.storage.collection:Collection"), "__init__")
+    a = coll.node.args
+    allp = a.posonlyargs + a.args
+    defaults = dict(zip([x.arg for x in allp][len(allp) - len(a.defaults):], a.defaults))
+    defaults.update({x.arg: d for x, d in zip(a.kwonlyargs, a.kw_defaults) if d is not None})
+    chk.require("bufsize" in defaults and isinstance(defaults["bufsize"], (ast.Constant, ast.UnaryOp)), "Collection.__init__: default of bufsize not found")
+    key = f"{init.key}:default-buffer-size-flushes-every-put"
+    asg = [t for t in walk_no_nested(init.node) if isinstance(t, ast.Assign) and any(norm(x) == "self._bufsize" for x in t.targets)]
+    tests = [t for t in walk_no_nested(put.node) if isinstance(t, ast.If) and has_call(t, {"self.flush"}) and "_bufsize" in norm(t.test)]
+    chk.require(len(asg) == 1 and len(tests) == 1, "CollectionBackendBase: the assignment of _bufsize / the flush test of put() was not found")
+    try:
+        d = evaluate(defaults["bufsize"], lambda n: NotImplemented)
+        size = evaluate(asg[0].value, lambda n: d if isinstance(n, ast.Name) and n.id == "bufsize" else NotImplemented)
+        stays = [u for u in (0, 1, 100000)
+                 if not evaluate(tests[0].test, lambda n, u=u: size if norm(n) == "self._bufsize" else (u if norm(n) in ("self.used_memory", "self._usedmem") else NotImplemented))]
+    except Unknown as e:
+        chk.note(f"C02.R12: the buffer size computed for the default could not be evaluated ({e}); no verdict")
+        chk.ok("C02.R12", key, init.where(asg[0]), "not classified (noted)")
+        return
+    chk.decide(not stays, "C02.R12", key, init.where(asg[0]), f"Collection's default bufsize = {d} gives _bufsize = {size}: `{short(tests[0].test, 40)}` holds after every put",
+               f"Collection's default bufsize = {d} gives _bufsize = {size}: with {stays} byte(s) queued `{short(tests[0].test, 40)}` is false - puts stay in the queue, a duplicate or oversize "
+               "key is accepted by put() and fails later inside flush(), which drops the puts queued behind it")
